@@ -17,7 +17,7 @@ _L: dict[str, Any] = {}
 LEAVES = ["a", "b", "c", "2", "-1", "-3", "1/2", "-2/3", "1.5", "pi", "1e-10", "6.5e-20"]
 MEDIUM = ["a", "b", "c", "2", "-1", "1/2", "-2/3", "pi"]
 REDUCED = ["a", "b", "2", "-1", "1/2"]
-EXPS = ["-1", "2", "-2", "1/2", "-1/2", "1/3", "3/2", "b", "a+c"]
+EXPS = ["-1", "2", "-2", "1/2", "-1/2", "1/3", "3/2", "b", "a+c", "-b", "-b-c", "2c-3b"]
 COMM = ("Add", "Mul")
 UNARY = ("sqrt", "exp", "log", "log2", "sin", "Abs")
 
@@ -33,11 +33,14 @@ def setup() -> dict[str, Any]:
         sp.Rational(-2, 3)), ("1.5", sp.Float(1.5)), ("pi", sp.pi)):
         _L[n] = sp.sympify(v)
     for n, v in (("-2", -2), ("-1/2", sp.Rational(-1, 2)), ("1/3", sp.Rational(1, 3)), ("3/2",
-        sp.Rational(3, 2))):
+        sp.Rational(3, 2)), ("-1/3", sp.Rational(-1, 3))):
         _L[n] = sp.sympify(v)
     _L["1e-10"] = sp.Float("1e-10")  # printed in exponent notation
     _L["6.5e-20"] = sp.Float("6.5e-20")
     _L["a+c"] = _L["a"] + _L["c"]
+    _L["-b"] = -_L["b"]
+    _L["-b-c"] = -_L["b"] - _L["c"]  # symbolic exponents that print with a leading minus
+    _L["2c-3b"] = 2 * _L["c"] - 3 * _L["b"]
     return _L
 
 
@@ -67,8 +70,25 @@ def build(d: Any) -> Any:
     return getattr(sp, op)(a[0])
 
 
+SIBLING_ARGS = ["a", ("Mul", "-1", "a"), ("Mul", "-2", "a"), ("Mul", "2", "a"), ("Add", "a", "-1"),
+    ("Add", "a", "-2"), ("Pow", "a", "-1"), ("Pow", "a", "-2"), ("Mul", "-1/3", "a"), ("Mul", "-2/3",
+    "a"), ("Mul", "1/3", "a"), ("Mul", "-1", "a", "b"), ("Mul", "-2", "a", "b"), ("Pow", "a", "b"),
+    ("Pow", "a", ("Mul", "-1", "b")), ("Pow", "a", ("Mul", "-2", "b"))]
+
+
+def siblings() -> Iterator[Any]:
+    """two applications of one function to similar arguments in one expression (a printer that
+    remembers what it has printed must keep them apart): sum, weighted difference, quotient"""
+    for f in ("exp", "sin", "log", "sqrt"):
+        for a1, a2 in itertools.permutations(SIBLING_ARGS, 2):
+            yield ("Add", (f, a1), (f, a2))
+            yield ("Add", (f, a1), ("Mul", "-3", (f, a2)))
+            yield ("Mul", (f, a1), ("Pow", (f, a2), "-1"))
+
+
 def space(thorough: bool) -> Iterator[Any]:
     yield from LEAVES
+    yield from siblings()
     t1 = list(explore.level1(LEAVES, COMM, UNARY, EXPS, MEDIUM))
     yield from t1
     yield from explore.level_up(t1, LEAVES, COMM, UNARY, EXPS, MEDIUM if thorough else REDUCED)
@@ -109,3 +129,29 @@ def source_members(modname: str, with_directives: bool = False) -> list:
             else:
                 out.append((m.name, m.value))
     return out
+
+
+def float_conditioned(e: Any, rep: dict, want: Any, tol: float) -> bool:
+    """False if the value of ``e`` moves by more than the comparison tolerance when its Float
+    leaves move in their last printed digit (a float is printed with 15 digits; e.g. sin(1e-10**-b)
+    takes the sine of 1e22): such a case cannot be judged by comparing values"""
+    fl = e.atoms(sp.Float)
+    if not fl:
+        return True
+    from . import values
+    try:
+        bumped = e.xreplace({f: sp.Float(f, 40) * (1 + sp.Float("1e-15", 40)) for f in fl})
+        other = values.mpc(sp.N(bumped.xreplace(rep), 40))
+    except Exception:  # pylint: disable=broad-except
+        return False
+    if not values.close(other, want, tol * 100, 1e-38):
+        return False
+    # ... and the float evaluation itself must be stable: with the floats taken as the exact
+    # rationals they are, and more digits, the value is the same ((-1)**1e65 is 1 in float
+    # arithmetic only because every float that large is an even integer)
+    try:
+        exact = e.xreplace({f: sp.Rational(f) for f in fl})
+        val = values.mpc(sp.N(exact.xreplace(rep), 120))
+    except Exception:  # pylint: disable=broad-except
+        return False
+    return values.close(val, want, tol * 100, 1e-38)
